@@ -29,7 +29,11 @@ def strategy(tier):
     # arrival times, not about who submits
     foreign = B.with_schedule(B.program(nmax=5, kinds=kinds, immediate_only=True, forced_flush=False, fail_p=1,
                                         with_foreign=1, foreign_ops=('call',), foreign_waits=False), 2)
-    return st.one_of(vt, vt, vt, foreign)
+    # "never running twice at once, never called with an empty set" hold with forced flushes and with every kind of
+    # (empty, failing, slow) producer too: for this family only those two clauses are judged
+    flush = B.with_schedule(B.program(nmax=6, kinds=('call', 'map', 'map', 'amap', 'await', 'wait', 'wait'), fail_p=2), 1) \
+        .map(lambda c: dict(c, flush=True))
+    return st.one_of(vt, vt, vt, foreign, flush)
 
 
 def run_case(case):
@@ -58,4 +62,6 @@ def run_case(case):
         cl.append('empty-iterable-arrival')
     if case.get('foreign'):
         cl.append('foreign-arrivals')
+    if case.get('flush'):
+        cl.append('forced-flush-family')
     return Result(viol, nt, cl, H.abbreviate(hist), {'steps': hist['steps'], 'skipped_bursts': skipped})
